@@ -116,6 +116,7 @@ def k7scen (t : Tokens) : String :=
   | "two-tlopen-one-fid" => "opens=1"
   | "rename-samedir-while-last-ref-dropped" => "renamed=1 alive=1"
   | "rename-dir-while-child-closing" => "renamed=1 uac=0"
+  | "rename-of-an-entry-whose-last-fid-is-closing" => "renamed=1 leaks= dbl= uac="
   | "clunk-races-inflight-read" => "clunked=1 closed_early=0 closed_after=1 uac=0"
   | "cut-with-request-in-backend" => "returned_early=0 closed_early=0 returned=1 leaks= dbl= uac="
   | "panic-in-unlinkat-keeps-serving" => "efault=1 child=1 again=1"
